@@ -85,3 +85,6 @@ func vc_C09_no_nondeterminism_sources() {
 	vfReach("scan")
 	vfAssert(n == 0, "no map iteration, wall-clock time or global random source is reachable from the render and write call graph")
 }
+
+// determinism across runs also needs renderer objects without state surviving a render
+func vc_C09_renderer_reuse() { vc_C07_renderer_reuse() }
